@@ -53,7 +53,9 @@ deriving DecidableEq, Repr
 def Facts.expected : Facts := ⟨true, true, true, true, true, true⟩
 
 /-- configurations for which the property theorems are proved -/
-def Proved (c : Cfg) : Prop := c.detect = .finishedFlag ∨ (c.detect = .recoverNonNil ∧ c.panicNilRecoversNil = false)
+/-  `recover() != nil` is correct only when `recover()` never returns nil for `panic(nil)`; that is decided by the
+    *application* (its go directive, or GODEBUG=panicnil=1), not by the library, so it is not in the proved set. -/
+def Proved (c : Cfg) : Prop := c.detect = .finishedFlag
 instance : DecidablePred Proved := fun c => by unfold Proved; exact inferInstance
 
 /-- state of the loop when the deferred function starts -/
@@ -101,6 +103,12 @@ def combine : List StepOutcome → StepOutcome
   | [] => .ok
   | .ok :: rest => combine rest
   | o :: _ => o
+
+/-- number of functions `Combine` invokes: up to and including the first failing one -/
+def combineRan : List StepOutcome → Nat
+  | [] => 0
+  | .ok :: rest => 1 + combineRan rest
+  | _ :: _ => 1
 
 def isOk : StepOutcome → Bool
   | .ok => true
